@@ -410,6 +410,31 @@ def check_batch(out, batch):
                         "impl_trace(time,code,arg)": [[e[0] - T0, e[1], e[2]] for e in tr]})
 
 
+def shrink(K, d, ops, sig):
+    """delta-debugging on the op list: keep the signature and the service-gap hypothesis"""
+    def fails(cand):
+        if not sw_ok(d, cand):
+            return False
+        tr, fin = real_run(K, cand)
+        judge = judge_all([(K, d, tr)])[0]
+        return any(s0 == sig for s0, _ in oracle(K, d, cand, tr, fin, judge))
+    cur = [list(o) for o in ops]
+    n = 2
+    while len(cur) >= 2 and n <= len(cur):
+        size = max(1, len(cur) // n)
+        reduced = False
+        for i in range(0, len(cur), size):
+            cand = cur[:i] + cur[i + size:]
+            if cand and fails(cand):
+                cur, n, reduced = cand, max(n - 1, 2), True
+                break
+        if not reduced:
+            if size == 1:
+                break
+            n = min(len(cur), n * 2)
+    return cur
+
+
 def run(ctx, out):
     rng = ctx.rng
     batch = []
@@ -440,9 +465,14 @@ def run(ctx, out):
             batch = []
     check_batch(out, batch)
     seen, uniq = set(), []
-    for v in out.violations:
+    for v in sorted(out.violations, key=lambda v: len(v["case"]["ops"])):
         if v["signature"] not in seen:
             seen.add(v["signature"])
+            small = shrink(v["case"]["K"], v["case"]["d"], v["case"]["ops"], v["signature"])
+            v = dict(v, case={"K": v["case"]["K"], "d": v["case"]["d"], "ops": small})
+            tr, _ = real_run(v["case"]["K"], small)
+            v["impl_trace(time,code,arg)"] = [[e[0] - T0, e[1], e[2]] for e in tr]
+            v.pop("impl_trace_tail", None)
             uniq.append(v)
     out.violations[:] = uniq
 
